@@ -292,8 +292,12 @@ func openDB(content []string) (*db.DB, map[string]string) {
 	}
 	store := map[string]string{}
 	for _, k := range content {
-		d.Set([]byte(k), []byte("s:"+k))
-		store[k] = "s:" + k
+		v := "s:" + k
+		if k == "b" {
+			v = "" // a key stored with an empty value is a stored key
+		}
+		d.Set([]byte(k), []byte(v))
+		store[k] = v
 	}
 	return d, store
 }
